@@ -7,6 +7,7 @@ scopes x two modes.  Everything here is a pure function of its arguments.
 Clause kinds (one letter each; c = index of the clause in the list):
   I  vC (log i [c1 c2])                      iteration
   D  [pC qC] (log i [[c1 c2] [c3 c4]])       iteration with destructuring
+  R  [pC #* qC] (log i [[c1 c2] [c3 c4]])    iteration with a starred destructuring target (qC is a list)
   E  vC (log i [])                           iteration over an empty iterable
   F  :if (log i (!= LAST first))             LAST = newest iteration variable (drops its first value)
   S  :setv sC (log i #(ALL))                 ALL = every variable bound so far
@@ -33,7 +34,7 @@ import itertools
 
 ROOTS = ["lfor", "sfor", "dfor", "gfor", "for"]
 CORE_KINDS = ["I", "D", "F", "S", "O"]
-FULL_KINDS = ["I", "D", "F", "S", "O", "A", "C", "B", "E"]
+FULL_KINDS = ["I", "D", "R", "F", "S", "O", "A", "C", "B", "E"]
 FINALS = {
     "lfor": ["V", "U", "X", "N", "NX"],
     "sfor": ["V", "U", "X", "N", "NX"],
@@ -43,7 +44,7 @@ FINALS = {
 }
 SCOPES = ["module", "function", "class"]
 MODES = ["fresh", "shadow"]
-ITER_KINDS = ("I", "D", "E")
+ITER_KINDS = ("I", "D", "R", "E")
 
 
 # ---------------------------------------------------------------- space
@@ -80,6 +81,8 @@ def units(runs):
     for kinds in clause_lists(runs):
         has_iter = any(k in ITER_KINDS for k in kinds)
         for root in ROOTS:
+            if "R" in kinds and root in ("sfor", "dfor"):
+                continue            # a starred target binds a list, which can't be a set element or dict key
             for fin in FINALS[root]:
                 if fin in ("PB", "PBE") and not has_iter:
                     continue        # (break) outside any loop: Python rejects it
@@ -130,6 +133,13 @@ class _Builder:
             self.comp_vars.append(v)
             self.last = (v, 0, 0)
             return ["iter", v, e]
+        if kind == "R":
+            e = self.slotted_lazy(lambda: self.logged(["lit", [[c * 10 + 1, c * 10 + 2], [c * 10 + 3, c * 10 + 4]]]))
+            p, q = f"p{c}", f"q{c}"
+            self.names += [p, q]
+            self.comp_vars += [p, q]
+            self.last = (p, c * 10 + 1, c * 10 + 3)
+            return ["iter", [p, "#* " + q], e]
         if kind == "D":
             e = self.slotted_lazy(lambda: self.logged(["lit", [[c * 10 + 1, c * 10 + 2], [c * 10 + 3, c * 10 + 4]]]))
             p, q = f"p{c}", f"q{c}"
